@@ -520,6 +520,8 @@ def _special_class(owner, c):
         return None
     if owner == "c01" and c.get("fn") == "lap" and (c.get("f20") or c.get("pat") == "forced-expensive"):
         return "F20"
+    if owner == "c01" and c.get("fn") == "flap":
+        return "F35-class"        # C01's float-stall class: the call may never return (F35) - a hang is not a memory error
     if owner == "c07" and c.get("fn") == "wide":
         return "F23"
     if owner == "c10" and (c.get("fork") or c.get("intmax")):
@@ -827,7 +829,9 @@ def impl(case):
         elif _special_class(owner, case["case"]):
             # classes of the known findings: fork-isolated (a crash is an outcome), the spy records inside the child
             mod = importlib.import_module("harness.props." + owner)
-            if owner == "c01":
+            if owner == "c01" and case["case"].get("fn") == "flap":
+                fn, limit = mod._impl_flap, 6
+            elif owner == "c01":
                 fn, limit = mod._impl_lap, 25
             elif owner == "c07":
                 fn, limit = mod._wide_child, 240            # 1.5 million columns: 4.3 GB of scratch, seconds (minutes under ASan)
